@@ -260,10 +260,17 @@ func c12Config(r *ev.Reporter, scheme string, n int) {
 		}
 	}
 	// --- SyncInfo: all 8 presence combinations; timeout messages
-	for mask := 0; mask < 8; mask++ {
+	// (the QC is a quorum certificate, the signature-less genesis certificate every replica starts with, or
+	// a signature-less certificate naming another block)
+	qcChoice := []struct {
+		name string
+		qc   *hotstuff.QuorumCert
+	}{{"none", nil}, {"quorum", &goodQC}, {"genesis(no signature)", ptr(fix.GenesisQC())}, {"unsigned(view 3)", ptr(hotstuff.NewQuorumCert(nil, 3, bA.Hash()))}}
+	for mask := 0; mask < 16; mask++ {
 		si := hotstuff.NewSyncInfo()
-		if mask&1 != 0 {
-			si.SetQC(goodQC)
+		qcc := qcChoice[mask&1+(mask>>3)*2]
+		if qcc.qc != nil {
+			si.SetQC(*qcc.qc)
 		}
 		if mask&2 != 0 {
 			si.SetTC(tcs[len(tcs)-2])
@@ -271,7 +278,7 @@ func c12Config(r *ev.Reporter, scheme string, n int) {
 		if mask&4 != 0 {
 			si.SetAggQC(aggs[len(aggs)-2])
 		}
-		desc := fmt.Sprintf("SyncInfo{qc=%v tc=%v agg=%v}", mask&1 != 0, mask&2 != 0, mask&4 != 0)
+		desc := fmt.Sprintf("SyncInfo{qc=%s tc=%v agg=%v}", qcc.name, mask&2 != 0, mask&4 != 0)
 		same := func(a, b hotstuff.SyncInfo) string {
 			q1, o1 := a.QC()
 			q2, o2 := b.QC()
@@ -406,3 +413,5 @@ func c12AggSame(a, b hotstuff.AggregateQC) string {
 	}
 	return ""
 }
+
+func ptr[T any](v T) *T { return &v }
